@@ -419,3 +419,67 @@ Definition crecv_step (once : bool) (icw : Z) (s : crecv) (e : crev) : crecv :=
     let '(acc', cwu, _) := on_data_credit (cr_acc s) (icw / 2) wire false in
     mkcrecv (cr_granted s + match cwu with Some c => c | None => 0 end) (cr_consumed s + wire) acc' (cr_enlarged s)
   end.
+
+(* ------------------------------------------------------------------ *)
+(** * DATA for streams that are gone, and recycled stream slots
+
+    [handle_data_frame] has two paths: the stream is known, or it is not in
+    the connection's map any more (refused, reset, timed out).  Both consume
+    the peer's connection window, so both must feed the connection credit.
+    [credit_gone] = the second path credits too (it does; [false] is the
+    seeded change r2_m1). *)
+Inductive drev := DKnown (wire : Z) | DGone (wire : Z) | DEnlarge.
+
+Definition drecv_step (credit_gone : bool) (icw : Z) (s : crecv) (e : drev) : crecv :=
+  match e with
+  | DEnlarge => crecv_step true icw s CEnlarge
+  | DKnown wire => crecv_step true icw s (CData wire)
+  | DGone wire =>
+    if credit_gone then crecv_step true icw s (CData wire)
+    else mkcrecv (cr_granted s) (cr_consumed s + wire) (cr_acc s) (cr_enlarged s)
+  end.
+
+Definition drev_wire (e : drev) : Z := match e with DKnown w | DGone w => w | DEnlarge => 0 end.
+
+(** A stream slot of [Context.streams] is reused for later streams
+    ([create_stream], Recycle branch).  What the next stream starts with:
+    [reset] = the send windows are set again from the peer's current initial
+    window (frontend side) and the default (backend side, until [start_stream]). *)
+Record slotw := mkslotw { sw_front : Z; sw_back : Z }.
+
+Inductive swev :=
+| SwCreate (init : Z)     (* a new stream takes the slot; [init] = the peer's SETTINGS_INITIAL_WINDOW_SIZE now *)
+| SwSent (n : Z)          (* response DATA sent on it *)
+| SwUpdate (inc : Z)      (* WINDOW_UPDATE from the client for it *)
+| SwBackSent (n : Z)
+| SwBackUpdate (inc : Z).
+
+Definition slotw_step (reset : bool) (s : slotw) (e : swev) : slotw :=
+  match e with
+  | SwCreate init => if reset then mkslotw init DEFAULT_INITIAL_WINDOW_SIZE else s
+  | SwSent n => mkslotw (sw_front s - n) (sw_back s)
+  | SwUpdate inc => mkslotw (sw_front s + inc) (sw_back s)
+  | SwBackSent n => mkslotw (sw_front s) (sw_back s - n)
+  | SwBackUpdate inc => mkslotw (sw_front s) (sw_back s + inc)
+  end.
+
+(* ------------------------------------------------------------------ *)
+(** * HPACK dynamic-table-size updates owed to the peer (RFC 7541 4.2)
+
+    The peer may change SETTINGS_HEADER_TABLE_SIZE several times before our
+    next header block.  State since the last block: the smallest size seen and
+    the last one ([pending_table_size_min], [pending_table_size_update]); the
+    next block starts with the smallest (when it is below the final) and then
+    the final size.  [keep_min = false] is the code before the repair: only
+    the last size was remembered. *)
+Definition tsz_step (keep_min : bool) (st : option (Z * Z)) (v : Z) : option (Z * Z) :=
+  match st with
+  | None => Some (v, v)
+  | Some (low, _) => Some (if keep_min then Z.min low v else v, v)
+  end.
+
+Definition tsz_emit (st : option (Z * Z)) : list Z :=
+  match st with
+  | None => []
+  | Some (low, last) => if low <? last then [low; last] else [last]
+  end.
